@@ -521,11 +521,10 @@ func (c *Chunker) buildSections(doc *model.Document) []*Section {
 	var preambleStartPage, preambleEndPage int
 
 	for pageNum, page := range doc.Pages {
-		pageIndex := pageNum + 1
-
-		if page.Layout == nil {
+		if page == nil || page.Layout == nil {
 			continue
 		}
+		pageIndex := pageNumberOf(page, pageNum)
 
 		// Process headings on this page
 		for _, heading := range page.Layout.Headings {
@@ -1112,10 +1111,10 @@ func (c *Chunker) chunkByParagraphs(doc *model.Document, chunkIndex *int) []*Chu
 
 	// Collect all paragraphs
 	for pageNum, page := range doc.Pages {
-		pageIndex := pageNum + 1
-		if page.Layout == nil {
+		if page == nil || page.Layout == nil {
 			continue
 		}
+		pageIndex := pageNumberOf(page, pageNum)
 
 		for _, para := range page.Layout.Paragraphs {
 			section.Content = append(section.Content, ContentElement{
@@ -1142,6 +1141,16 @@ func (c *Chunker) chunkByParagraphs(doc *model.Document, chunkIndex *int) []*Chu
 	}
 
 	return c.splitSectionByParagraphs(section, chunkIndex, doc.Metadata.Title)
+}
+
+// pageNumberOf returns the page's own number (documents extracted from a page
+// selection keep the numbers of the source pages) and falls back to the position
+// in the document for pages that were never numbered.
+func pageNumberOf(page *model.Page, index int) int {
+	if page.Number > 0 {
+		return page.Number
+	}
+	return index + 1
 }
 
 // calculateStats computes statistics about the chunks
